@@ -2,6 +2,8 @@
 import PflDrv.FA
 import Pfl.Model.Regex
 import Pfl.Model.ToRegex
+import Pfl.Model.RegexToCFG
+import PflDrv.CFG
 open Lean Pfl
 namespace PflDrv
 
@@ -82,6 +84,10 @@ def rxHandle (op : String) (j : Json) : R Json := do
     | none => throw "fuel"
     | some r => pure (Json.mkObj [("equiv", jBool r.isNone),
         ("word", jOpt (jList jStr) (r.map fun w => w.map fun k => tbl.getD k "?"))])
+  | "rx.toCFG" =>   -- model of Regex.to_cfg
+    let t ← asRx (← field j "tree")
+    let start ← asStr (← field j "start")
+    pure (jCFG (t.toCFG start))
   | "rx.toRegex" =>   -- tree-level model of EpsilonNFA.to_regex
     let A ← asENFA (← field j "A")
     let names ← asStrList (← field j "symNames")
